@@ -13,6 +13,8 @@
 //! One case per line:
 //!   {"id":.., "text": <text of module Doc>, "mods": {<name>: <text>}, "cls": <unresolved class>,
 //!    "exporters": [<module names that export cls>],
+//!    "with_std": bool?  (the workspace also holds the STANDARD LIBRARY: `builtin_std_raw_sources`; the exporters
+//!                        may then be modules of the library, e.g. std.tuples for `Pair`),
 //!    "init": {<name>: <text>}?, "hist": [{<name>: <text>}..]? , ..any other fields are copied..}
 //! With "init"/"hist" the server is started on `init` and every element of `hist` is one call of the
 //! server's workspace interface:
@@ -111,10 +113,10 @@ fn printed_toplevels(text: &str) -> Vec<String> {
     .collect()
 }
 
-fn analyze(doc: &str, mods: &BTreeMap<String, String>) -> Result<Analysis, String> {
+fn analyze(doc: &str, mods: &BTreeMap<String, String>, with_std: bool) -> Result<Analysis, String> {
   guarded(|| {
     let mut heap = Heap::new();
-    let mut hs = HashMap::new();
+    let mut hs = if with_std { samlang_parser::builtin_std_raw_sources(&mut heap) } else { HashMap::new() };
     let d = mref(&mut heap, DOC);
     hs.insert(d, doc.to_string());
     for (n, t) in mods {
@@ -320,10 +322,10 @@ struct Server {
 }
 
 impl Server {
-  fn start(files: &BTreeMap<String, String>) -> Server {
+  fn start(files: &BTreeMap<String, String>, with_std: bool) -> Server {
     let mut heap = Heap::new();
     let mut names = BTreeMap::new();
-    let mut hs = HashMap::new();
+    let mut hs = if with_std { samlang_parser::builtin_std_raw_sources(&mut heap) } else { HashMap::new() };
     for (n, t) in files {
       let m = mref(&mut heap, n);
       names.insert(n.clone(), m);
@@ -396,8 +398,9 @@ pub fn run(args: &[String]) {
     let doc = case["text"].as_str().expect("case.text").to_string();
     let mods = texts_of(&case["mods"]);
     let cls = case["cls"].as_str().unwrap().to_string();
+    let with_std = case["with_std"].as_bool().unwrap_or(false);
     let mut base = json!({"id": id, "doc_mod": DOC, "cls": cls, "exporters": case["exporters"], "text": doc});
-    for k in ["layout", "src", "pred", "hist_len", "hinit", "hops", "cand_mods"] {
+    for k in ["layout", "src", "pred", "hist_len", "hinit", "hops", "cand_mods", "with_std"] {
       if let Some(v) = case.get(k) {
         base[k] = v.clone();
       }
@@ -420,7 +423,7 @@ pub fn run(args: &[String]) {
     fin.insert(DOC.to_string(), doc.clone());
     let built = guarded(|| {
       if case.get("init").is_some() {
-        let mut srv = Server::start(&texts_of(&case["init"]));
+        let mut srv = Server::start(&texts_of(&case["init"]), with_std);
         let mut steps = 0usize;
         for b in case["hist"].as_array().into_iter().flatten() {
           srv.step(b);
@@ -436,7 +439,7 @@ pub fn run(args: &[String]) {
         }
         (srv, steps)
       } else {
-        (Server::start(&fin), 0)
+        (Server::start(&fin, with_std), 0)
       }
     });
     let (mut srv, steps) = match built {
@@ -450,7 +453,7 @@ pub fn run(args: &[String]) {
     n_updates += steps;
     *srv_live.borrow_mut() = json!(srv.live());
     let d = srv.m(DOC);
-    let before = match analyze(&doc, &mods) {
+    let before = match analyze(&doc, &mods, with_std) {
       Ok(a) => a,
       Err(p) => {
         n_panics += 1;
@@ -543,7 +546,7 @@ pub fn run(args: &[String]) {
         Ok(applied) => {
           rec["applied"] = json!(true);
           rec["apply_error"] = json!("");
-          match analyze(&applied, &mods) {
+          match analyze(&applied, &mods, with_std) {
             Ok(after) => {
               rec["syn_after"] = json!(after.syntax);
               rec["diag_after"] = json!(after.diags);
